@@ -518,3 +518,81 @@ Proof.
   pose proof (at_most_2n (N.of_nat (length (x :: t))) m n KM Hn) as A. fold bN in A.
   rewrite <- (N2Nat.id bN) in A. rewrite <- Nat2N.inj_div in A. exact A.
 Qed.
+
+(* ---- C17: failing creates and opens leave the file system alone ---- *)
+Theorem new_over_existing fs name p hdr caches cb0 :
+  fs_mem fs (name ++ ext_data) = true ->
+  (len (params_to_text BSgen.Consts.version p ++ hdr) <= 65535)%N ->
+  series_new name p hdr caches cb0 fs = (fs, Err EExists).
+Proof.
+  intros M Hl. unfold series_new, data_new, fwh_new.
+  replace (65535 <? len (params_to_text BSgen.Consts.version p ++ hdr))%N with false by (symmetry; apply N.ltb_ge; exact Hl).
+  unfold mbind, create_new. rewrite M. reflexivity.
+Qed.
+
+Theorem new_header_too_large fs name p hdr caches cb0 :
+  (65535 < len (params_to_text BSgen.Consts.version p ++ hdr))%N ->
+  series_new name p hdr caches cb0 fs = (fs, Err EHeaderTooLarge).
+Proof.
+  intros Hl. unfold series_new, data_new, fwh_new.
+  replace (65535 <? len (params_to_text BSgen.Consts.version p ++ hdr))%N with true by (symmetry; apply N.ltb_lt; exact Hl).
+  reflexivity.
+Qed.
+
+Theorem open_missing fs name popt caches cb0 :
+  fs_mem fs (name ++ ext_data) = false ->
+  series_open name popt caches cb0 fs = (fs, Err ENotFound).
+Proof.
+  intros M. unfold series_open, fwh_open, mbind, exists_file. rewrite M. reflexivity.
+Qed.
+Corollary builder_open_missing fs name popt hdr caches cb0 :
+  fs_mem fs (name ++ ext_data) = false ->
+  builder_open name popt hdr caches cb0 fs = (fs, Err ENotFound).
+Proof. intros M. unfold builder_open, mbind. rewrite (open_missing fs name popt caches cb0 M). reflexivity. Qed.
+
+Lemma fs_raw_del_same fs f : fs_raw (fs_del fs f) f = None.
+Proof. induction fs as [|[g c] t IH]; cbn [fs_del fs_raw]; [reflexivity|]. destruct (bytes_eqb g f) eqn:E; [exact IH|]. cbn [fs_raw]. rewrite E. exact IH. Qed.
+Lemma fs_raw_del_other fs f g : g <> f -> fs_raw (fs_del fs f) g = fs_raw fs g.
+Proof.
+  intros N. induction fs as [|[h c] t IH]; cbn [fs_del fs_raw]; [reflexivity|].
+  destruct (bytes_eqb h f) eqn:E.
+  - apply bytes_eqb_eq in E. subst h. rewrite (bytes_eqb_neq f g) by congruence. exact IH.
+  - cbn [fs_raw]. destruct (bytes_eqb h g); [reflexivity|exact IH].
+Qed.
+
+Lemma mbind_err {A B} (m:M A) (f:A -> M B) fs fs' e : m fs = (fs', Err e) -> mbind m f fs = (fs', Err e).
+Proof. intros H. unfold mbind. rewrite H. reflexivity. Qed.
+
+(* a stale index file: the create fails and the data file it had made is removed again *)
+Theorem new_stale_index fs name p hdr cb0 :
+  fs_mem fs (name ++ ext_data) = false -> fs_mem fs (name ++ ext_index) = true ->
+  (len (params_to_text BSgen.Consts.version p ++ hdr) <= 65535)%N ->
+  exists fs', series_new name p hdr [] cb0 fs = (fs', Err EExists) /\ forall g, fs_get fs' g = fs_get fs g.
+Proof.
+  intros M1 M2 Hl.
+  destruct (fwh_new_ok fs (name ++ ext_data) _ M1 Hl) as (fs1 & E1 & F1 & O1 & OM1).
+  assert (FW : fwim_new {| of_name := name ++ ext_data; of_off := (user_header_starts + len (params_to_text BSgen.Consts.version p ++ hdr))%N |} (N.to_nat p) fs1 = (fs1, Ok tt)).
+  { unfold fwim_new. erewrite mbind_ok by (apply (of_len_ok _ _ _ _ F1)). reflexivity. }
+  assert (M2' : fs_mem fs1 (name ++ ext_index) = true).
+  { rewrite OM1; [exact M2|]. apply not_eq_sym. apply ext_data_index_neq. }
+  exists (fs_del fs1 (name ++ ext_data)). split.
+  - unfold series_new. apply mbind_err. unfold data_new.
+    erewrite mbind_ok by exact E1. erewrite mbind_ok by (apply (of_len_ok _ _ _ _ F1)).
+    erewrite mbind_ok by exact FW. apply mbind_err.
+    assert (IX : index_new name fs1 = (fs1, Err EExists)).
+    { unfold index_new, fwh_new. change (65535 <? len (@nil byte))%N with false. cbn iota.
+      apply mbind_err. apply mbind_err. unfold create_new. rewrite M2'. reflexivity. }
+    unfold mcatch. rewrite IX. unfold mbind, remove_file, fail. reflexivity.
+  - intros g. unfold fs_get. destruct (list_eq_dec Byte.byte_eq_dec g (name ++ ext_data)) as [->|N].
+    + rewrite fs_raw_del_same. apply fs_mem_get in M1. unfold fs_get in M1. destruct (fs_raw fs (name ++ ext_data)); [discriminate|reflexivity].
+    + rewrite fs_raw_del_other by exact N. specialize (O1 g N). unfold fs_get in O1.
+      destruct (fs_raw fs1 g), (fs_raw fs g); cbn [option_map] in *; congruence.
+Qed.
+
+(* ---- C11/C19: the line estimate never panics except in the arm the Rust marks unreachable ---- *)
+Theorem estimate_lines_total r p dl :
+  (match start_area_ r, end_area_ r with STillEnd _, EWindow _ _ => False | _, _ => True end) ->
+  exists mx mn, estimate_lines r p dl = Ok (mx, mn).
+Proof.
+  intros H. unfold estimate_lines. destruct (start_area_ r), (end_area_ r); try contradiction; cbn [bind]; eauto.
+Qed.
